@@ -298,6 +298,13 @@ def run_import(case, ctx, w, classes):
         mt = w.mtime_ns(dn, f.sub)
         good = dz["kind"] != "decoy"
         offer = data if good else bytes((b ^ 0x33) for b in data)
+        bs_ = c0.block_size
+        if not good and dz.get("rename_dir") == "dd1" and len(data) > bs_:
+            # a decoy that shares whole blocks with the lost file: only one block (not the first) differs
+            nb_ = (len(data) + bs_ - 1) // bs_
+            j = 1 + (dz["src"] + k) % (nb_ - 1)
+            offer = data[:j * bs_] + bytes((b ^ 0x33) for b in data[j * bs_:(j + 1) * bs_]) + data[(j + 1) * bs_:]
+            classes.add("decoy sharing blocks with the lost file")
         where = "import" if dz["same_dir"] else "array"
         if where == "import":
             p = os.path.join(imp, b"offer%d" % k)
